@@ -278,14 +278,31 @@ theorem sum_map_fst_map (l : List Nat) : sum ((l.map (fun n => (n, true))).map (
   | nil => rfl
   | cons a t ih => simp [sum] at ih ⊢; exact ih
 
+theorem Good.errMat {F : Facts13} (hF : F.Good) : ∀ k, errMaterialised F k = true := by
+  obtain ⟨_, _, _, _, _, _, _, _, _, _, _, h12, h13⟩ := id hF
+  intro k; cases k
+  · rfl
+  · exact h12
+  · exact h13
+
+/-- with the fault body materialised before it is measured, what is measured is what is sent -/
+theorem errBody_eq_measured (F : Facts13) (req : Req) (hm : ∀ k, errMaterialised F k = true) :
+    errBody F req = errMeasured req := by
+  unfold errBody errMeasured
+  cases req.onException with
+  | some w => rfl
+  | none => simp [hm]
+
 theorem errorOut_wf (F : Facts13) (req : Req) (preset : Option Nat) (fc : FaultClass)
-    (h : F.closeTiming = .afterBody) (he : F.errorEventBeforeLength = true) :
+    (h : F.closeTiming = .afterBody) (he : F.errorEventBeforeLength = true)
+    (hm : ∀ k, errMaterialised F k = true) :
     (errorOut F req preset fc).WF := by
   refine ⟨⟨h, ?_, ?_, rfl⟩, rfl⟩
   · intro c hc; simp at hc; obtain ⟨a, _, rfl⟩ := hc; rfl
   · intro n hn
     simp only [errLen, he, if_true, Option.some.injEq] at hn
     subst hn
+    simp only [errBody_eq_measured F req hm]
     exact (sum_map_fst_map _).symm
 
 theorem successOut_wf (F : Facts13) (cfg : Cfg) (r : Resp)
@@ -322,14 +339,15 @@ theorem withAux_wf (req : Req) (runs : Bool) (r : Result) (h : r.WF) : (withAux 
 
 theorem afterUser_wf (F : Facts13) (cfg : Cfg) (req : Req) (r : Resp) (hF : F.Good) :
     (afterUser F cfg req r).WF := by
-  obtain ⟨h1, _, h3, _, h5, _, h7, h8, h9, h10⟩ := id hF
+  obtain ⟨h1, _, h3, _, h5, _, h7, h8, h9, h10, _, _, _⟩ := id hF
+  have hm := Good.errMat hF
   have hc : (if r.serializeFails then
         withAux req req.auxOnErrors F.auxGuardError
           (errorOut F req (if F.lateErrorKeepsOkStatus then some (r.preset.getD F.okStatus) else r.preset) .server)
       else withAux req true F.auxGuardOk (withReturnListener F cfg req r)).WF := by
     rw [h9, h10]
     split
-    · exact withAux_wf _ _ _ (errorOut_wf _ _ _ _ h1 h8)
+    · exact withAux_wf _ _ _ (errorOut_wf _ _ _ _ h1 h8 hm)
     · exact withAux_wf _ _ _ (withReturnListener_wf _ _ _ _ h1 h3 h7)
   unfold afterUser
   simp only [h5, if_true]
@@ -337,17 +355,18 @@ theorem afterUser_wf (F : Facts13) (cfg : Cfg) (req : Req) (r : Resp) (hF : F.Go
   · exact hc
   · exact hc
   · exact hc
-  · rw [h10]; exact withAux_wf _ _ _ (errorOut_wf _ _ _ _ h1 h8)
+  · rw [h10]; exact withAux_wf _ _ _ (errorOut_wf _ _ _ _ h1 h8 hm)
 
 theorem intendedResult_wf (F : Facts13) (cfg : Cfg) (req : Req) (hF : F.Good) :
     (intendedResult F cfg req).2.WF := by
-  obtain ⟨h1, _, _, _, _, _, _, h8, _, h10⟩ := id hF
+  obtain ⟨h1, _, _, _, _, _, _, h8, _, h10, _, _, _⟩ := id hF
+  have hm := Good.errMat hF
   unfold intendedResult
   split
-  · exact errorOut_wf _ _ _ _ h1 h8
-  · exact errorOut_wf _ _ _ _ h1 h8
-  · exact errorOut_wf _ _ _ _ h1 h8
-  · simp only; rw [h10]; exact withAux_wf _ _ _ (errorOut_wf _ _ _ _ h1 h8)
+  · exact errorOut_wf _ _ _ _ h1 h8 hm
+  · exact errorOut_wf _ _ _ _ h1 h8 hm
+  · exact errorOut_wf _ _ _ _ h1 h8 hm
+  · simp only; rw [h10]; exact withAux_wf _ _ _ (errorOut_wf _ _ _ _ h1 h8 hm)
   · exact afterUser_wf _ _ _ _ hF
 
 /-- with the good facts every request is answered: no exception escapes, and the answer is
@@ -356,20 +375,21 @@ theorem process_wf (F : Facts13) (cfg : Cfg) (req : Req) (stream : List Nat) (hF
     (process F cfg req stream).2.WF := by
   have h1 := hF.1
   obtain ⟨_, _, _, h4, _, h6, _, h8, _, _⟩ := id hF
+  have hm := Good.errMat hF
   unfold process
   split
-  · exact errorOut_wf _ _ _ _ h1 h8
+  · exact errorOut_wf _ _ _ _ h1 h8 hm
   · split
     · exact intendedResult_wf _ _ _ hF
     · simp only
       split
-      · rw [h4]; exact errorOut_wf _ _ _ _ h1 h8
-      · exact errorOut_wf _ _ _ _ h1 h8
+      · rw [h4]; exact errorOut_wf _ _ _ _ h1 h8 hm
+      · exact errorOut_wf _ _ _ _ h1 h8 hm
       · simp only [h6, Bool.not_true, Bool.and_false, Bool.false_eq_true, if_false]
         split
-        · exact errorOut_wf _ _ _ _ h1 h8
+        · exact errorOut_wf _ _ _ _ h1 h8 hm
         · split
-          · exact errorOut_wf _ _ _ _ h1 h8
+          · exact errorOut_wf _ _ _ _ h1 h8 hm
           · exact intendedResult_wf _ _ _ hF
 
 /-! ### the events in front of the response -/
@@ -443,8 +463,8 @@ theorem bodyBytes_pre (pre : List Ev) (hpre : ∀ e ∈ pre, isPre e = true) : b
     have := ih (fun x hx => hpre x (by simp [hx]))
     cases e <;> simp_all [bodyBytes, isPre, isRead, isUser, isHdr]
 
-theorem bodyBytes_finalEvs (c : Closes) : bodyBytes (finalEvs c) = 0 := by
-  cases c <;> rfl
+theorem bodyBytes_finalOnce (o : Out) : bodyBytes (finalOnce o) = 0 := by
+  unfold finalOnce; cases o.closes <;> cases o.onClose <;> rfl
 
 theorem sum_take_le (l : List Nat) (k : Nat) : sum (l.take k) ≤ sum l := by
   induction l generalizing k with
@@ -477,11 +497,12 @@ theorem countP_auxEvs (p : Ev → Bool) (hp : p .aux = false) (o : Out) : List.c
 theorem bodyBytes_auxEvs (o : Out) : bodyBytes (auxEvs o) = 0 := by
   unfold auxEvs; split <;> rfl
 
-theorem deliver_after (o : Out) (abort : Option Nat) (h : o.timing = .afterBody) (he : o.auxEscapes = false) :
+theorem deliver_after (o : Out) (abort : Option Nat) (h : o.timing = .afterBody) (he : o.auxEscapes = false)
+    (ho : o.refinalizes = false) :
     deliver o abort =
       .startResponse o.status o.fault o.cl ::
-        (auxEvs o ++ .returned :: (chunkEvs (taken abort o.chunks) ++ finalEvs o.closes)) := by
-  simp [deliver, h, he]
+        (auxEvs o ++ .returned :: (chunkEvs (taken abort o.chunks) ++ finalOnce o)) := by
+  simp [deliver, h, he, finalEvs, ho]
 
 /-- the shape every answered request has when the facts are good -/
 structure Answered (tr : List Ev) (abort : Option Nat) (pre : List Ev) (o : Out) : Prop where
@@ -490,32 +511,41 @@ structure Answered (tr : List Ev) (abort : Option Nat) (pre : List Ev) (o : Out)
   timing : o.timing = .afterBody
   cl : ∀ n, o.cl = some n → n = sum (o.chunks.map (·.1))
   noEscape : o.auxEscapes = false
+  once : o.refinalizes = false
 
 theorem Answered.start_once {tr abort pre o} (h : Answered tr abort pre o) :
     List.countP isStart tr = 1 := by
-  rw [h.eq, deliver_after _ _ h.timing h.noEscape, List.countP_append,
+  rw [h.eq, deliver_after _ _ h.timing h.noEscape h.once, List.countP_append,
     countP_pre isStart (by intro e; cases e <;> simp [isPre, isRead, isUser, isHdr, isStart]) pre h.pre]
   simp only [List.countP_cons, List.countP_append, isStart,
     countP_chunkEvs isStart (by intros; rfl), countP_auxEvs isStart rfl]
-  cases o.closes <;> simp [finalEvs, isStart]
+  unfold finalOnce; cases o.closes <;> cases o.onClose <;> simp [rpcFinal, wsdlFinal, isStart]
 
 theorem Answered.start_before_chunks {tr abort pre o} (h : Answered tr abort pre o) :
     noneBefore isChunk isStart tr = true := by
-  rw [h.eq, deliver_after _ _ h.timing h.noEscape, noneBefore_append_pre]
+  rw [h.eq, deliver_after _ _ h.timing h.noEscape h.once, noneBefore_append_pre]
   · simp [noneBefore, isStart]
   · intro e he
     have := h.pre e he
     cases e <;> simp_all [isPre, isRead, isUser, isHdr, isChunk, isStart]
 
-theorem mem_finalEvs {c : Closes} {e : Ev} (h : e ∈ finalEvs c) : e = .ctxClosed ∨ e = .wsgiClose := by
-  cases c <;> simp [finalEvs] at h
+theorem mem_finalOnce {o : Out} {e : Ev} (h : e ∈ finalOnce o) :
+    e = .ctxClosed ∨ e = .wsgiClose ∨ e = .lraise := by
+  cases hc : o.closes <;> cases hl : o.onClose <;> simp [finalOnce, rpcFinal, wsdlFinal, hc, hl] at h <;>
+    first
+      | (rcases h with rfl | rfl | rfl <;> simp)
+      | (rcases h with rfl | rfl <;> simp)
+      | (subst h; simp)
+
+theorem mem_finalAgain {o : Out} {e : Ev} (h : e ∈ finalAgain o) : e = .ctxClosed ∨ e = .wsgiClose := by
+  cases hc : o.closes <;> simp [finalAgain, hc] at h
   · exact h
   · exact Or.inl h
 
 theorem Answered.no_crash {tr abort pre o} (h : Answered tr abort pre o) :
     ∀ e ∈ tr, isCrash e = false := by
   intro e he
-  rw [h.eq, deliver_after _ _ h.timing h.noEscape] at he
+  rw [h.eq, deliver_after _ _ h.timing h.noEscape h.once] at he
   simp only [List.mem_append, List.mem_cons] at he
   rcases he with he | rfl | he | rfl | he | he
   · have := h.pre e he
@@ -524,13 +554,13 @@ theorem Answered.no_crash {tr abort pre o} (h : Answered tr abort pre o) :
   · rw [mem_auxEvs he]; rfl
   · rfl
   · obtain ⟨n, b, rfl, _⟩ := mem_chunkEvs he; rfl
-  · rcases mem_finalEvs he with rfl | rfl <;> rfl
+  · rcases mem_finalOnce he with rfl | rfl | rfl <;> rfl
 
 theorem Answered.content_length {tr abort pre o} (h : Answered tr abort pre o) (s : Nat)
     (f : Option FaultClass) (n : Nat) (hm : Ev.startResponse s f (some n) ∈ tr) :
     bodyBytes tr ≤ n ∧ (abort = none → bodyBytes tr = n) := by
   have hcl : o.cl = some n := by
-    rw [h.eq, deliver_after _ _ h.timing h.noEscape] at hm
+    rw [h.eq, deliver_after _ _ h.timing h.noEscape h.once] at hm
     simp only [List.mem_append, List.mem_cons] at hm
     rcases hm with hm | hm | hm | hm | hm | hm
     · have := h.pre _ hm; simp [isPre, isRead, isUser, isHdr] at this
@@ -538,11 +568,11 @@ theorem Answered.content_length {tr abort pre o} (h : Answered tr abort pre o) (
     · cases mem_auxEvs hm
     · cases hm
     · obtain ⟨_, _, h1, _⟩ := mem_chunkEvs hm; cases h1
-    · rcases mem_finalEvs hm with h1 | h1 <;> cases h1
+    · rcases mem_finalOnce hm with h1 | h1 | h1 <;> cases h1
   have hn := h.cl n hcl
   have hb : bodyBytes tr = sum ((taken abort o.chunks).map (·.1)) := by
-    rw [h.eq, deliver_after _ _ h.timing h.noEscape, bodyBytes_append, bodyBytes_pre _ h.pre]
-    simp only [bodyBytes, bodyBytes_append, bodyBytes_chunkEvs, bodyBytes_finalEvs, bodyBytes_auxEvs]
+    rw [h.eq, deliver_after _ _ h.timing h.noEscape h.once, bodyBytes_append, bodyBytes_pre _ h.pre]
+    simp only [bodyBytes, bodyBytes_append, bodyBytes_chunkEvs, bodyBytes_finalOnce, bodyBytes_auxEvs]
     omega
   constructor
   · rw [hb, hn]; exact taken_sizes_le _ _
@@ -550,7 +580,7 @@ theorem Answered.content_length {tr abort pre o} (h : Answered tr abort pre o) (
 
 theorem Answered.start_of {tr abort pre o} (h : Answered tr abort pre o) (s : Nat)
     (f : Option FaultClass) (c : Option Nat) (hm : Ev.startResponse s f c ∈ tr) : s = o.status := by
-  rw [h.eq, deliver_after _ _ h.timing h.noEscape] at hm
+  rw [h.eq, deliver_after _ _ h.timing h.noEscape h.once] at hm
   simp only [List.mem_append, List.mem_cons] at hm
   rcases hm with hm | hm | hm | hm | hm | hm
   · have := h.pre _ hm; simp [isPre, isRead, isUser, isHdr] at this
@@ -558,11 +588,11 @@ theorem Answered.start_of {tr abort pre o} (h : Answered tr abort pre o) (s : Na
   · cases mem_auxEvs hm
   · cases hm
   · obtain ⟨_, _, h1, _⟩ := mem_chunkEvs hm; cases h1
-  · rcases mem_finalEvs hm with h1 | h1 <;> cases h1
+  · rcases mem_finalOnce hm with h1 | h1 | h1 <;> cases h1
 
 theorem Answered.chunks_of {tr abort pre o} (h : Answered tr abort pre o) (n : Nat) (b : Bool)
     (hm : Ev.chunk n b ∈ tr) : (n, b) ∈ o.chunks := by
-  rw [h.eq, deliver_after _ _ h.timing h.noEscape] at hm
+  rw [h.eq, deliver_after _ _ h.timing h.noEscape h.once] at hm
   simp only [List.mem_append, List.mem_cons] at hm
   rcases hm with hm | hm | hm | hm | hm | hm
   · have := h.pre _ hm; simp [isPre, isRead, isUser, isHdr] at this
@@ -572,16 +602,16 @@ theorem Answered.chunks_of {tr abort pre o} (h : Answered tr abort pre o) (n : N
   · obtain ⟨n', b', h1, h2⟩ := mem_chunkEvs hm
     cases h1
     exact taken_sub _ _ _ h2
-  · rcases mem_finalEvs hm with h1 | h1 <;> cases h1
+  · rcases mem_finalOnce hm with h1 | h1 | h1 <;> cases h1
 
 theorem Answered.abort_respected {tr pre o} (k : Nat) (h : Answered tr (some k) pre o) :
     List.countP isChunk tr ≤ k := by
-  rw [h.eq, deliver_after _ _ h.timing h.noEscape, List.countP_append,
+  rw [h.eq, deliver_after _ _ h.timing h.noEscape h.once, List.countP_append,
     countP_pre isChunk (by intro e; cases e <;> simp [isPre, isRead, isUser, isHdr, isChunk]) pre h.pre]
   simp only [List.countP_cons, List.countP_append, isChunk, countP_auxEvs isChunk rfl]
   have h1 : List.countP isChunk (chunkEvs (taken (some k) o.chunks)) ≤ k :=
     Nat.le_trans (List.countP_le_length) (by simpa [chunkEvs] using taken_length_le k o.chunks)
-  have h2 : List.countP isChunk (finalEvs o.closes) = 0 := by cases o.closes <;> rfl
+  have h2 : List.countP isChunk (finalOnce o) = 0 := by unfold finalOnce; cases o.closes <;> cases o.onClose <;> rfl
   simp at h1 ⊢
   omega
 
@@ -590,22 +620,22 @@ theorem Answered.closed_once {tr abort pre o} (h : Answered tr abort pre o) (hc 
     noneBefore isClosed isReturned tr = true := by
   have haux : ∀ e ∈ auxEvs o, isClosed e = false ∧ isReturned e = false := by
     intro e he; rw [mem_auxEvs he]; exact ⟨rfl, rfl⟩
-  rw [h.eq, deliver_after _ _ h.timing h.noEscape]
+  rw [h.eq, deliver_after _ _ h.timing h.noEscape h.once]
   refine ⟨?_, ?_, ?_⟩
   · rw [List.countP_append,
       countP_pre isClosed (by intro e; cases e <;> simp [isPre, isRead, isUser, isHdr, isClosed]) pre h.pre]
     simp only [List.countP_cons, List.countP_append, isClosed,
       countP_chunkEvs isClosed (by intros; rfl), countP_auxEvs isClosed rfl]
     cases hcl : o.closes with
-    | rpc => simp [finalEvs, isClosed, List.countP_cons]
-    | wsdl => simp [finalEvs, isClosed, List.countP_cons]
+    | rpc => cases hl : o.onClose <;> simp [finalOnce, rpcFinal, wsdlFinal, hcl, hl, isClosed, List.countP_cons]
+    | wsdl => cases hl : o.onClose <;> simp [finalOnce, rpcFinal, wsdlFinal, hcl, hl, isClosed, List.countP_cons]
     | never => exact absurd hcl hc
   · rw [noneAfter_append_pre]
     · simp only [noneAfter, isClosed, Bool.false_eq_true, if_false]
       rw [noneAfter_append_pre _ _ _ _ (fun e he => (haux e he).1)]
       simp only [noneAfter, isClosed, Bool.false_eq_true, if_false]
       rw [noneAfter_append_pre]
-      · cases hcl : o.closes <;> simp_all [finalEvs, noneAfter, isClosed, isChunk]
+      · cases hcl : o.closes <;> cases hl : o.onClose <;> simp_all [finalOnce, rpcFinal, wsdlFinal, noneAfter, isClosed, isChunk]
       · intro e he; obtain ⟨n, b, rfl, _⟩ := mem_chunkEvs he; rfl
     · intro e he
       have := h.pre e he
@@ -618,29 +648,55 @@ theorem Answered.closed_once {tr abort pre o} (h : Answered tr abort pre o) (hc 
       have := h.pre e he
       cases e <;> simp_all [isPre, isRead, isUser, isHdr, isClosed, isReturned]
 
+/-- `wsgi_close` fires once, after the body — unless a `method_context_closed` listener raised, which
+    cuts the finalizer short before it gets there -/
 theorem Answered.wsgi_close_once {tr abort pre o} (h : Answered tr abort pre o) (hc : o.closes = .rpc) :
-    List.countP isWsgiClose tr = 1 ∧ noneAfter isChunk isWsgiClose tr = true := by
-  rw [h.eq, deliver_after _ _ h.timing h.noEscape]
+    List.countP isWsgiClose tr = (if o.onClose = .ctxClosedRaises then 0 else 1) ∧
+    noneAfter isChunk isWsgiClose tr = true := by
+  rw [h.eq, deliver_after _ _ h.timing h.noEscape h.once]
   refine ⟨?_, ?_⟩
   · rw [List.countP_append,
       countP_pre isWsgiClose (by intro e; cases e <;> simp [isPre, isRead, isUser, isHdr, isWsgiClose]) pre h.pre]
-    simp [List.countP_cons, List.countP_append, isWsgiClose,
-      countP_chunkEvs isWsgiClose (by intros; rfl), countP_auxEvs isWsgiClose rfl, hc, finalEvs]
+    cases hl : o.onClose <;>
+      simp [List.countP_cons, List.countP_append, isWsgiClose,
+        countP_chunkEvs isWsgiClose (by intros; rfl), countP_auxEvs isWsgiClose rfl, hc, hl, finalOnce, rpcFinal, wsdlFinal]
   · rw [noneAfter_append_pre]
     · simp only [noneAfter, isWsgiClose, Bool.false_eq_true, if_false]
       rw [noneAfter_append_pre _ _ _ _ (fun e he => by rw [mem_auxEvs he]; rfl)]
       simp only [noneAfter, isWsgiClose, Bool.false_eq_true, if_false]
       rw [noneAfter_append_pre]
-      · simp [hc, finalEvs, noneAfter, isWsgiClose]
+      · cases hl : o.onClose <;> simp [hc, hl, finalOnce, rpcFinal, wsdlFinal, noneAfter, isWsgiClose, isChunk]
       · intro e he; obtain ⟨n, b, rfl, _⟩ := mem_chunkEvs he; rfl
     · intro e he
       have := h.pre e he
       cases e <;> simp_all [isPre, isRead, isUser, isHdr, isWsgiClose]
 
+/-- a listener's exception reaches the server at most once, and only after the context was closed -/
+theorem Answered.lraise_once {tr abort pre o} (h : Answered tr abort pre o) :
+    List.countP isLraise tr ≤ 1 ∧ noneBefore isLraise isClosed tr = true := by
+  rw [h.eq, deliver_after _ _ h.timing h.noEscape h.once]
+  have hpre : ∀ e ∈ pre, isLraise e = false ∧ isClosed e = false := by
+    intro e he
+    have := h.pre e he
+    cases e <;> simp_all [isPre, isRead, isUser, isHdr, isLraise, isClosed]
+  refine ⟨?_, ?_⟩
+  · rw [List.countP_append, List.countP_eq_zero.2 (fun e he => by simp [(hpre e he).1])]
+    simp only [List.countP_cons, List.countP_append, isLraise, countP_chunkEvs isLraise (by intros; rfl),
+      countP_auxEvs isLraise rfl]
+    unfold finalOnce
+    cases o.closes <;> cases o.onClose <;> simp [rpcFinal, wsdlFinal, isLraise]
+  · rw [noneBefore_append_pre _ _ _ _ (fun e he => hpre e he)]
+    simp only [noneBefore, isLraise, isClosed, Bool.false_eq_true, if_false, Bool.not_false, Bool.true_and]
+    rw [noneBefore_append_pre _ _ _ _ (fun e he => by rw [mem_auxEvs he]; exact ⟨rfl, rfl⟩)]
+    simp only [noneBefore, isLraise, isClosed, Bool.false_eq_true, if_false, Bool.not_false, Bool.true_and]
+    rw [noneBefore_append_pre _ _ _ _ (fun e he => by obtain ⟨n, b, rfl, _⟩ := mem_chunkEvs he; exact ⟨rfl, rfl⟩)]
+    unfold finalOnce
+    cases o.closes <;> cases o.onClose <;> simp [rpcFinal, wsdlFinal, noneBefore, isLraise, isClosed]
+
 /-- the auxiliary method runs after `start_response` and before the hand-over, at most once -/
 theorem Answered.aux_between {tr abort pre o} (h : Answered tr abort pre o) :
     List.countP isAux tr ≤ 1 ∧ noneBefore isAux isStart tr = true ∧ noneAfter isAux isReturned tr = true := by
-  rw [h.eq, deliver_after _ _ h.timing h.noEscape]
+  rw [h.eq, deliver_after _ _ h.timing h.noEscape h.once]
   have hpre : ∀ e ∈ pre, isAux e = false ∧ isStart e = false ∧ isReturned e = false := by
     intro e he
     have := h.pre e he
@@ -648,7 +704,7 @@ theorem Answered.aux_between {tr abort pre o} (h : Answered tr abort pre o) :
   refine ⟨?_, ?_, ?_⟩
   · rw [List.countP_append, List.countP_eq_zero.2 (fun e he => by simp [(hpre e he).1])]
     simp only [List.countP_cons, List.countP_append, isAux, countP_chunkEvs isAux (by intros; rfl)]
-    have h2 : List.countP isAux (finalEvs o.closes) = 0 := by cases o.closes <;> rfl
+    have h2 : List.countP isAux (finalOnce o) = 0 := by unfold finalOnce; cases o.closes <;> cases o.onClose <;> rfl
     have h3 : List.countP isAux (auxEvs o) ≤ 1 := by unfold auxEvs; split <;> simp [isAux]
     simp only [h2]; simp; omega
   · rw [noneBefore_append_pre _ _ _ _ (fun e he => ⟨(hpre e he).1, (hpre e he).2.1⟩)]
@@ -661,7 +717,7 @@ theorem Answered.aux_between {tr abort pre o} (h : Answered tr abort pre o) :
     intro e he
     rcases he with he | he
     · obtain ⟨n, b, rfl, _⟩ := mem_chunkEvs he; simp [isAux]
-    · rcases mem_finalEvs he with rfl | rfl <;> simp [isAux]
+    · rcases mem_finalOnce he with rfl | rfl | rfl <;> simp [isAux]
 
 
 /-! ### from `handle` to the answered shape -/
@@ -736,19 +792,21 @@ theorem wsdlOut_cl (F : Facts13) (k : WsdlKind) (n : Nat) (h : (wsdlOut F k).cl 
 /-- with the good facts, every request ends in an answer of the shape `Answered` -/
 theorem handle_answered (F : Facts13) (cfg : Cfg) (req : Req) (stream : List Nat) (abort : Option Nat)
     (hF : F.Good) :
-    ∃ pre o, Answered (handle F cfg req stream abort) abort pre o ∧
+    ∃ pre o, Answered (handle F cfg req stream abort) abort pre o ∧ o.onClose = req.closeListener ∧
       (req.wsdl = none → pre = (process F cfg req stream).1 ++ hdrEvs F req (process F cfg req stream) ∧
-        (process F cfg req stream).2 = .out o ∧
+        (∃ o', (process F cfg req stream).2 = .out o' ∧ o = atServer F req o') ∧
         o.closes = .rpc ∧ ∀ c ∈ o.chunks, c.2 = true) ∧
-      (∀ k, req.wsdl = some k → pre = [] ∧ o = wsdlOut F k) := by
+      (∀ k, req.wsdl = some k → pre = [] ∧ o = atServer F req (wsdlOut F k)) := by
+  have hfin : F.finalizeClearedFirst = true := hF.2.2.2.2.2.2.2.2.2.2.1
   cases hw : req.wsdl with
   | some k =>
-    refine ⟨[], wsdlOut F k, ⟨?_, ?_, ?_, ?_, ?_⟩, ?_, ?_⟩
+    refine ⟨[], atServer F req (wsdlOut F k), ⟨?_, ?_, ?_, ?_, ?_, ?_⟩, rfl, ?_, ?_⟩
     · simp [handle, hw]
     · simp
-    · rw [wsdlOut_timing]; exact hF.2.1
+    · show (wsdlOut F k).timing = _; rw [wsdlOut_timing]; exact hF.2.1
     · exact wsdlOut_cl F k
     · cases k <;> rfl
+    · simp [atServer, hfin]
     · intro h; cases h
     · intro k' h; cases h; exact ⟨rfl, rfl⟩
   | none =>
@@ -757,30 +815,50 @@ theorem handle_answered (F : Facts13) (cfg : Cfg) (req : Req) (stream : List Nat
     | crash c => rw [hr] at hwf; exact hwf.elim
     | out o =>
       rw [hr] at hwf
-      refine ⟨(process F cfg req stream).1 ++ hdrEvs F req (process F cfg req stream), o,
-        ⟨?_, ?_, hwf.1.timing, hwf.1.cl, hwf.1.noEscape⟩, ?_, ?_⟩
-      · simp [handle, hw, hr, finish]
+      refine ⟨(process F cfg req stream).1 ++ hdrEvs F req (process F cfg req stream), atServer F req o,
+        ⟨?_, ?_, hwf.1.timing, hwf.1.cl, hwf.1.noEscape, ?_⟩, rfl, ?_, ?_⟩
+      · simp [handle, hw, hr, finish, Result.atServer]
       · intro e he
         rcases List.mem_append.1 he with he | he
         · exact pre_of_process _ _ _ _ e he
         · exact pre_of_hdrEvs _ _ _ e he
-      · intro _; exact ⟨rfl, rfl, hwf.2, hwf.1.bytes⟩
+      · simp [atServer, hfin]
+      · intro _; exact ⟨rfl, ⟨o, rfl, rfl⟩, hwf.2, hwf.1.bytes⟩
       · intro k h; cases h
 
 /-! ### statements that need no fact at all -/
 
+theorem mem_finalEvs {o : Out} {abort : Option Nat} {e : Ev} (h : e ∈ finalEvs o abort) :
+    e = .ctxClosed ∨ e = .wsgiClose ∨ e = .lraise := by
+  unfold finalEvs at h
+  rcases List.mem_append.1 h with h | h
+  · exact mem_finalOnce h
+  · split at h
+    · rcases mem_finalAgain h with h | h
+      · exact Or.inl h
+      · exact Or.inr (Or.inl h)
+    · simp at h
+
 theorem mem_deliver {o : Out} {abort : Option Nat} {e : Ev} (h : e ∈ deliver o abort) :
     (∃ s f c, e = .startResponse s f c) ∨ e = .aux ∨ e = .returned ∨ (∃ n b, e = .chunk n b) ∨
-    e = .ctxClosed ∨ e = .wsgiClose ∨ (∃ c, e = .crash c) := by
+    e = .ctxClosed ∨ e = .wsgiClose ∨ e = .lraise ∨ (∃ c, e = .crash c) := by
   have hch : ∀ e ∈ chunkEvs (taken abort o.chunks), ∃ n b, e = Ev.chunk n b := by
     intro e he; obtain ⟨n, b, rfl, _⟩ := mem_chunkEvs he; exact ⟨n, b, rfl⟩
+  have hfin : ∀ e, (e = Ev.ctxClosed ∨ e = .wsgiClose ∨ e = .lraise) →
+      ((∃ s f c, e = Ev.startResponse s f c) ∨ e = .aux ∨ e = .returned ∨ (∃ n b, e = .chunk n b) ∨
+        e = .ctxClosed ∨ e = .wsgiClose ∨ e = .lraise ∨ (∃ c, e = .crash c)) := by
+    intro e he
+    rcases he with he | he | he
+    · exact Or.inr (Or.inr (Or.inr (Or.inr (Or.inl he))))
+    · exact Or.inr (Or.inr (Or.inr (Or.inr (Or.inr (Or.inl he)))))
+    · exact Or.inr (Or.inr (Or.inr (Or.inr (Or.inr (Or.inr (Or.inl he))))))
   unfold deliver at h
   split at h
-  · simp only [List.mem_cons, List.mem_append, List.mem_singleton] at h
+  · simp only [List.mem_cons, List.mem_append] at h
     rcases h with rfl | h | h | h
     · exact Or.inl ⟨_, _, _, rfl⟩
     · exact Or.inr (Or.inl (mem_auxEvs h))
-    · exact Or.inr (Or.inr (Or.inr (Or.inr (Or.inr (Or.inr ⟨_, h⟩)))))
+    · exact Or.inr (Or.inr (Or.inr (Or.inr (Or.inr (Or.inr (Or.inr ⟨_, h⟩))))))
     · cases h
   · split at h <;> simp only [List.mem_cons, List.mem_append] at h
     · rcases h with rfl | h | rfl | h | h
@@ -788,22 +866,21 @@ theorem mem_deliver {o : Out} {abort : Option Nat} {e : Ev} (h : e ∈ deliver o
       · exact Or.inr (Or.inl (mem_auxEvs h))
       · exact Or.inr (Or.inr (Or.inl rfl))
       · exact Or.inr (Or.inr (Or.inr (Or.inl (hch e h))))
-      · rcases mem_finalEvs h with rfl | rfl
-        · exact Or.inr (Or.inr (Or.inr (Or.inr (Or.inl rfl))))
-        · exact Or.inr (Or.inr (Or.inr (Or.inr (Or.inr (Or.inl rfl)))))
+      · exact hfin e (mem_finalEvs h)
     · rcases h with rfl | h | h | rfl | h
       · exact Or.inl ⟨_, _, _, rfl⟩
       · exact Or.inr (Or.inl (mem_auxEvs h))
-      · rcases mem_finalEvs h with rfl | rfl
-        · exact Or.inr (Or.inr (Or.inr (Or.inr (Or.inl rfl))))
-        · exact Or.inr (Or.inr (Or.inr (Or.inr (Or.inr (Or.inl rfl)))))
+      · rcases mem_finalAgain h with h | h
+        · exact hfin e (Or.inl h)
+        · exact hfin e (Or.inr (Or.inl h))
       · exact Or.inr (Or.inr (Or.inl rfl))
       · exact Or.inr (Or.inr (Or.inr (Or.inl (hch e h))))
 
 theorem isRead_deliver (o : Out) (abort : Option Nat) :
     ∀ e ∈ deliver o abort, isRead e = false ∧ isUser e = false ∧ isHdr e = false := by
   intro e he
-  rcases mem_deliver he with ⟨_, _, _, rfl⟩ | rfl | rfl | ⟨_, _, rfl⟩ | rfl | rfl | ⟨_, rfl⟩ <;> exact ⟨rfl, rfl, rfl⟩
+  rcases mem_deliver he with ⟨_, _, _, rfl⟩ | rfl | rfl | ⟨_, _, rfl⟩ | rfl | rfl | rfl | ⟨_, rfl⟩ <;>
+    exact ⟨rfl, rfl, rfl⟩
 
 theorem bytesGot_noread (l : List Ev) (h : ∀ e ∈ l, isRead e = false) : bytesGot l = 0 := by
   induction l with
@@ -834,19 +911,20 @@ theorem handle_rpc_eq (F : Facts13) (cfg : Cfg) (req : Req) (stream : List Nat) 
     (hw : req.wsdl = none) :
     handle F cfg req stream abort =
       (process F cfg req stream).1 ++
-        (hdrEvs F req (process F cfg req stream) ++ finish (process F cfg req stream).2 abort) := by
+        (hdrEvs F req (process F cfg req stream) ++
+          finish ((process F cfg req stream).2.atServer F req) abort) := by
   simp [handle, hw]
 
 /-- neither the header pairs nor the answer contain a `read` or the user function -/
 theorem tail_noread (F : Facts13) (req : Req) (p : List Ev × Result) (abort : Option Nat) :
-    ∀ e ∈ hdrEvs F req p ++ finish p.2 abort, isRead e = false ∧ isUser e = false := by
+    ∀ e ∈ hdrEvs F req p ++ finish (p.2.atServer F req) abort, isRead e = false ∧ isUser e = false := by
   intro e he
   rcases List.mem_append.1 he with he | he
   · obtain ⟨k, b, rfl⟩ := mem_hdrEvs he; exact ⟨rfl, rfl⟩
   · exact isRead_finish _ _ e he
 
 theorem bytesGot_tail (F : Facts13) (req : Req) (p : List Ev × Result) (abort : Option Nat) :
-    bytesGot (hdrEvs F req p ++ finish p.2 abort) = 0 :=
+    bytesGot (hdrEvs F req p ++ finish (p.2.atServer F req) abort) = 0 :=
   bytesGot_noread _ (fun e he => (tail_noread F req p abort e he).1)
 
 /-- the bytes a request obtains from `wsgi.input` are those of its body reader -/
@@ -1260,7 +1338,9 @@ theorem hdr_str (F : Facts13) (hF : F.headerTuplesExpanded = true) (cfg : Cfg) (
         · exact hdrEvsFrom_str F hF _ _ _ _ h
         · simp at h
     · cases hr : (process F cfg req stream).2 with
-      | crash c => rw [hr] at h; simp [finish] at h
-      | out o => rw [hr] at h; exact absurd (isRead_deliver _ _ _ h).2.2 (by simp [isHdr])
+      | crash c => rw [hr] at h; simp [finish, Result.atServer] at h
+      | out o =>
+        rw [hr] at h
+        exact absurd (isRead_deliver _ _ _ (by simpa [finish, Result.atServer] using h)).2.2 (by simp [isHdr])
 
 end SpyneModel.Wsgi
